@@ -121,7 +121,10 @@ class FrontMatterExtension(ParserExtension):
         next_line = None
         while repeat_again:
             next_line = source_provider.get_next_line()
-            if next_line and next_line.rstrip(Constants.ascii_whitespace):
+            if next_line is None:
+                # End of the document without a closing fence: abandon the front matter.
+                repeat_again = False
+            elif next_line.rstrip(Constants.ascii_whitespace):
                 start_char, _ = ThematicLeafBlockProcessor.is_thematic_break(
                     next_line.rstrip(Constants.ascii_whitespace),
                     0,
